@@ -25,7 +25,8 @@ RULE = ("case = (shared configuration {key_prefix bytes/str, default_noreply, en
         "stream at the server (packetisation ignored) and parse errors; equal result of identical type or the same "
         "exception class; identical socket option / timeout / TLS-wrap / connect events on the connection that did the "
         "work. Non-trivial: the configuration differs from the defaults in an option other than key_prefix, or the "
-        "call passes an optional argument. Server spellings (ip / name without port, name:port with capitals, [v6]:port, [v6], unix:path, path, tuple with a text port) are part of the configuration for every stack. Stacks may be built around a Client subclass (reference: that subclass used directly) and include the ElastiCache subclass; a serializer object that is falsy; key collections that can be iterated once without being their own iterator. Sequences in which the server refuses a storage command line (a number out of range) and then reads the data block as a command, with every reply line in a packet of its own, and with a server that hangs up after error lines.")
+        "call passes an optional argument. Server spellings (ip / name without port, name:port with capitals, [v6]:port, [v6], unix:path, path, tuple with a text port) are part of the configuration for every stack. Stacks may be built around a Client subclass (reference: that subclass used directly) and include the ElastiCache subclass; a serializer object that is falsy; key collections that can be iterated once without being their own iterator. Sequences in which the server refuses a storage command line (a number out of range) and then reads the data block as a command, with every reply line in a packet of its own, and with a server that hangs up after error lines."
+        + ' Keys with rendezvous score 0, 1, 2**31, 2**32-1 for the one server under every server spelling; lone-surrogate keys (where every other argument is valid); configurations the plain Client refuses at construction (a non-ASCII str key prefix) must be refused by every stack alike, and a configuration it accepts by none.')
 MANIFEST = {
     "category": "exploration",
     "technique": "differential testing of five client stacks against the plain Client over identical generated (configuration, server state, call) triples; enumerated option x call grid + Hypothesis",
